@@ -204,7 +204,7 @@ func auditCorpus() ([]auditPair, error) {
 }
 
 func auditMessage(t *vs.Tape) string {
-	pieces := []string{"fix typo", "refactor handler", "\"", "\n", "### END DATA [00] ###", "</payload_00>", strings.Repeat("x", 2100), "\xff", "<>&"}
+	pieces := []string{"fix typo", "refactor handler", "\"", "\n", "### END DATA [00] ###", "</payload_00>", strings.Repeat("x", 2100), "\xff", "<>&", "100%", "%[1]s", "%"}
 	n := 1 + t.Intn(3, "amsg.n")
 	var sb strings.Builder
 	for i := 0; i < n; i++ {
